@@ -26,7 +26,7 @@ ASSUMPTIONS = [
     "ignore_feedback=True exempts the caller-requested case; latch/unlatch use it by design",
 ]
 SANITY = ["writes_with_injected_fault", "writes_to_nonconforming_unit", "writes_returning_normally"]
-BOUNDS = {"quick": "1 fault per run; 4 data patterns; short-write lengths {0,1,n-1}", "thorough": "2 faults per run on values <= 8 bytes, 1 otherwise; 6 data patterns; every short-write length"}
+BOUNDS = {"quick": "1 fault per run; 4 data patterns; short-write lengths {0,1,n-1}", "thorough": "3 faults per run on values <= 2 bytes, 2 on values <= 8 bytes, 1 otherwise, for all 6 data patterns; every short-write length"}
 
 DOC_EXC = ("MemoryLocationNotWriteable", "MemoryWriteFailure", "ResponseError", "MemoryValueNotWriteable", "ValueError")
 GEAR_ADDR, DEV_ADDR = 3, 5
@@ -236,7 +236,7 @@ def run_shard(shard):
                     res["distinct"].add((name, r))
         sample(res, {"non_writable": name})
         return res
-    bound = 1 if (tier == "quick" or w > 8) else 2
+    bound = 1 if (tier == "quick" or w > 8) else (3 if w <= 2 else 2)
     pats = patterns(w, tier)
     for fam in ("gear", "device"):
         for lock in (0xFF, 0x55, 0x00, 0xAA):
@@ -247,7 +247,7 @@ def run_shard(shard):
                     cfg = dict(bank=bname, name=name, raw=raw.hex(), fam=fam, lock=lock, variant=variant, opts={})
                     # faults are injected into conforming units only: a fault on top of a non-conforming
                     # unit can cancel it (DTR0 not advancing + answer+1) and proves nothing about the library
-                    b = 0 if variant != "standard" else (bound if pname in ("index", "ff") else (1 if pname == "55" else 0))
+                    b = 0 if variant != "standard" else (bound if (pname in ("index", "ff") or tier == "thorough") else (1 if pname == "55" else 0))
                     for ch, obs in explore(lambda c: run_write(cfg, c), bound=b):
                         h, row_, kind, val, n = obs
                         r = judge(res, cfg, h, row, kind, val, n)
